@@ -494,6 +494,15 @@ func (m *Monitor) checkDelete(n *Node, b *blockchain.Block) {
 		return
 	}
 	f := n.Finalized()
+	if n.SaveTempAsked[string(b.Header.ID)] {
+		// "removed blocks are kept retrievable as temporary blocks when requested"
+		delete(n.SaveTempAsked, string(b.Header.ID))
+		hk := []byte{pfxTemp, byte(b.Header.Height >> 24), byte(b.Header.Height >> 16), byte(b.Header.Height >> 8), byte(b.Header.Height)}
+		if g, ok := got[string(hk)]; !ok || !bytes.Equal(g, b.Encode()) {
+			m.report("C05", "temp-block", "not-kept", "%s: the synchronization removed block %d (%s) asking to keep it as a temporary block; the temporary store holds %d bytes of something else (present=%v) at that height", n.Name, b.Header.Height, short(b.Header.ID), len(g), ok)
+		}
+		simkit.Probe("temp_block_requested_and_checked")
+	}
 	keys := map[string]bool{}
 	for k := range got {
 		keys[k] = true
